@@ -78,6 +78,9 @@ class Handler(object):
   def multi(self, s):
     return self.echo(s)
 
+  def join(self, s, t, n, f):
+    return self.echo(s)
+
   def poke(self, s):
     self._do(s)
     return None
